@@ -41,6 +41,18 @@ long env_distance__pE_pE (Elem *first, Elem *last);
 long env_distance__pcE_pcE (const Elem *first, const Elem *last);
 
 
+/* caller's iterators and generator (C15) */
+_Bool env_op_eq__pcII_pcII (const struct InputIt *a, const struct InputIt *b);
+const Elem *env_op_deref__pII (struct InputIt *it);
+struct InputIt *env_op_inc__pII (struct InputIt *it);
+_Bool env_op_eq__pcFI_pcFI (const struct FwdIt *a, const struct FwdIt *b);
+const Elem *env_op_deref__pFI (struct FwdIt *it);
+struct FwdIt *env_op_inc__pFI (struct FwdIt *it);
+long env_distance__FI_FI (struct FwdIt first, struct FwdIt last);
+void env_advance__pFI_l (struct FwdIt *it, long n);
+Elem *env_copy__FI_FI_pE (struct FwdIt first, struct FwdIt last, Elem *d);
+void env_op_call__pG_out (struct Gen *g, Elem *out);
+
 /* libstdc++ algorithms on element ranges (summaries) */
 Elem *env_copy__pcE_pcE_pE (const Elem *first, const Elem *last, Elem *d);
 Elem *env_copy__pE_pE_pE (Elem *first, Elem *last, Elem *d);
